@@ -28,6 +28,10 @@ CONSTANTS
     Names,          \* schema names used by get_versioned_schema / create in call histories
     KeyWithVersion, \* TRUE: expanded-schema cache keyed by name + version (the code as it is)
                     \* FALSE: keyed by name only (the behaviour before the fix; negative config)
+    Derive,         \* "fresh": every cache entry is expanded from the schema files (the code as it is)
+                    \* "alias": a versioned entry created while the version-less entry of the same
+                    \*   schema is cached is a shallow copy of it - the nested objects are shared, so
+                    \*   pruning one prunes all of them (negative config)
     Ops,            \* the kinds of call a history may contain
     MaxCalls,       \* length bound of a call history
     Mode            \* "mc" exhaustive histories | "sim" random histories with emission |
@@ -99,7 +103,12 @@ DefaultsOf(n, v) == {p[2] : p \in {q \in Defaults : q[1] = n /\ Accept(q[2], v)}
 
 Key(n, v) == IF KeyWithVersion THEN <<n, v>> ELSE <<n, NoVersion>>
 Keys      == AllNames \X VersionsN
-Fresh     == [k \in Keys |-> [in |-> FALSE, pruned |-> {}]]
+Fresh     == [k \in Keys |-> [in |-> FALSE, alias |-> FALSE, pruned |-> {}]]
+
+\* the object a cache entry stands for: an aliased entry shares its nested structure (and so every
+\* pruning) with the version-less entry of the same schema
+Obj(e, k) == [in |-> e[k].in,
+              pruned |-> IF e[k].alias THEN e[<<k[1], NoVersion>>].pruned ELSE e[k].pruned]
 
 \* an entry is still inside a cached object iff every pruning so far kept it
 InC(c, i)        == \A w \in c.pruned : Accept(i, w)
@@ -110,14 +119,20 @@ DocInC(c, d)     == /\ \A g \in d.guards : InC(c, g)
 
 \* get_versioned_schema(v, n): get_expanded_schema creates the cache entry, then the object is
 \* pruned in place with v  ("if version:")
-Touch(e, n, v) == [e EXCEPT ![Key(n, v)] =
-                     [in |-> TRUE, pruned |-> @.pruned \cup (IF v = NoVersion THEN {} ELSE {v})]]
+Touch(e, n, v) ==
+    LET k  == Key(n, v)
+        al == IF e[k].in THEN e[k].alias
+              ELSE Derive = "alias" /\ v # NoVersion /\ k # <<n, NoVersion>> /\ e[<<n, NoVersion>>].in
+        e1 == [e EXCEPT ![k] = [in |-> TRUE, alias |-> al, pruned |-> @.pruned]]
+    IN  IF v = NoVersion THEN e1
+        ELSE IF al THEN [e1 EXCEPT ![<<n, NoVersion>>].pruned = @ \cup {v}]
+        ELSE [e1 EXCEPT ![k].pruned = @ \cup {v}]
 
 \* answers computed by the mechanism from a cache state e (after the call)
 MechValidate(e, d, v) ==
-    [reject |-> d.fault \/ (v # NoVersion /\ ~DocInC(e[Key(d.root, v)], d))]    \* no version: raw schema
-MechSchema(e, n, v)   == [absent |-> AbsentC(e[Key(n, v)], n)]
-MechCreate(e, n, v)   == [defaults |-> {p[2] : p \in {q \in Defaults : q[1] = n /\ InC(e[Key(n, v)], q[2])}}]
+    [reject |-> d.fault \/ (v # NoVersion /\ ~DocInC(Obj(e, Key(d.root, v)), d))]    \* no version: raw schema
+MechSchema(e, n, v)   == [absent |-> AbsentC(Obj(e, Key(n, v)), n)]
+MechCreate(e, n, v)   == [defaults |-> {p[2] : p \in {q \in Defaults : q[1] = n /\ InC(Obj(e, Key(n, v)), q[2])}}]
 
 -----------------------------------------------------------------------------
 (* The contract: the answer as a function of the arguments only            *)
@@ -214,7 +229,7 @@ Spec == Init /\ [][Next]_vars
 
 \* the entries present in a cached object are exactly those accepted for the version of its key
 CacheSound ==
-    \A k \in Keys : exp[k].in => \A i \in EntryIds : InC(exp[k], i) <=> Accept(i, k[2])
+    \A k \in Keys : exp[k].in => \A i \in EntryIds : InC(Obj(exp, k), i) <=> Accept(i, k[2])
 
 \* the answer of the last call is a function of its arguments only
 HistoryIndependent == answer = Judge(last)
